@@ -154,6 +154,45 @@ impl ToTokens for TraitVisibility<'_> {
                             push_tokens!(stream, syn::token::Super::default());
                         });
                     }
+                    // A visibility relative to the invocation site (`pub(self)`, `pub(super)`, `pub(in super::..)`)
+                    // has to be written one module level deeper, for the same reason.
+                    syn::Visibility::Restricted(restricted)
+                        if restricted.path.leading_colon.is_none()
+                            && restricted.path.is_ident("self") =>
+                    {
+                        push_tokens!(stream, restricted.pub_token);
+                        restricted.paren_token.surround(stream, |stream| {
+                            push_tokens!(stream, syn::token::Super::default());
+                        });
+                    }
+                    syn::Visibility::Restricted(restricted)
+                        if restricted.path.leading_colon.is_none()
+                            && restricted
+                                .path
+                                .segments
+                                .first()
+                                .map(|segment| segment.ident == "self" || segment.ident == "super")
+                                .unwrap_or(false) =>
+                    {
+                        // `self::path` becomes `super::path`, `super::path` becomes `super::super::path`
+                        let skip = if restricted.path.segments[0].ident == "self" {
+                            1
+                        } else {
+                            0
+                        };
+                        push_tokens!(stream, restricted.pub_token);
+                        restricted.paren_token.surround(stream, |stream| {
+                            push_tokens!(
+                                stream,
+                                syn::token::In::default(),
+                                syn::token::Super::default(),
+                                syn::token::PathSep::default()
+                            );
+                            for pair in restricted.path.segments.pairs().skip(skip) {
+                                push_tokens!(stream, pair);
+                            }
+                        });
+                    }
                     _ => {
                         push_tokens!(stream, self.visibility);
                     }
